@@ -1,8 +1,313 @@
-//! C19 observations (see props/c19.py for the consumer).
+//! C19 observations: window values (all kinds), interpolated profiles, poling domain lists, update histories of
+//! PeriodicPoling, config <-> runtime mapping of apodization kinds.  Consumer: props/c19.py.
 #![allow(unused_imports, dead_code)]
 use crate::common::*;
-use serde_json::json;
+use serde_json::{json, Value};
+use spdcalc::dim::ucum::{M, RAD};
+use spdcalc::*;
 
-pub fn run(_args: &[String]) {
-  emit(json!({"kind": "not_implemented", "property": "C19"}));
+const WIDTH_KINDS: [&str; 6] = ["Bartlett", "Blackman", "Connes", "Cosine", "Hamming", "Welch"];
+
+fn mk_width(kind: &str, a: f64) -> Apodization {
+  match kind {
+    "Bartlett" => Apodization::Bartlett(a),
+    "Blackman" => Apodization::Blackman(a),
+    "Connes" => Apodization::Connes(a),
+    "Cosine" => Apodization::Cosine(a),
+    "Hamming" => Apodization::Hamming(a),
+    "Welch" => Apodization::Welch(a),
+    _ => unreachable!(),
+  }
+}
+
+/// JSON description of an apodization, every number as its bit pattern
+fn apod_json(ap: &Apodization) -> Value {
+  match ap {
+    Apodization::Off => json!({"kind": "Off"}),
+    Apodization::Gaussian { fwhm } => json!({"kind": "Gaussian", "p": fx(*(*fwhm / M))}),
+    Apodization::Bartlett(a) => json!({"kind": "Bartlett", "p": fx(*a)}),
+    Apodization::Blackman(a) => json!({"kind": "Blackman", "p": fx(*a)}),
+    Apodization::Connes(a) => json!({"kind": "Connes", "p": fx(*a)}),
+    Apodization::Cosine(a) => json!({"kind": "Cosine", "p": fx(*a)}),
+    Apodization::Hamming(a) => json!({"kind": "Hamming", "p": fx(*a)}),
+    Apodization::Welch(a) => json!({"kind": "Welch", "p": fx(*a)}),
+    Apodization::Interpolate(v) => json!({"kind": "Interpolate", "values": fxs(v)}),
+  }
+}
+
+fn pp_json(pp: &PeriodicPoling) -> Value {
+  match pp {
+    PeriodicPoling::Off => json!({"on": false}),
+    PeriodicPoling::On {
+      period,
+      sign,
+      apodization,
+    } => json!({
+      "on": true, "period": fx(*(*period / M)),
+      "sign": if *sign == Sign::POSITIVE { "POSITIVE" } else { "NEGATIVE" },
+      "apodization": apod_json(apodization),
+    }),
+  }
+}
+
+fn observers(pp: &PeriodicPoling) -> Value {
+  let sp = *(pp.signed_period() / M);
+  let keff = guarded(|| *(pp.k_eff() * M / RAD));
+  json!({
+    "state": pp_json(pp), "signed_period": fx(sp),
+    "k_eff": match keff { Ok(k) => fx(k), Err(_) => json!("panic") },
+    "apodization": apod_json(pp.apodization()),
+  })
+}
+
+fn random_apod(rng: &mut Rng, unit_only: bool) -> Apodization {
+  match rng.below(9) {
+    0 => Apodization::Off,
+    1 => Apodization::Gaussian {
+      fwhm: rng.log_range(50e-6, 5e-3) * M,
+    },
+    8 if !unit_only => {
+      let n = 1 + rng.below(12);
+      Apodization::Interpolate((0..n).map(|_| (rng.range(0., 1.) * 64.).round() / 64.).collect())
+    }
+    k => {
+      let kind = WIDTH_KINDS[(k + rng.below(6)) % 6];
+      let a = if unit_only || rng.below(3) == 0 { 1. } else { rng.range(1., 3.) };
+      mk_width(kind, a)
+    }
+  }
+}
+
+fn zgrid(rng: &mut Rng, n: usize) -> Vec<f64> {
+  let mut zs = vec![-1., -0.75, -0.5, -0.25, 0., 0.25, 0.5, 0.75, 1., 1e-9, -1e-9, 1. - 1e-12, -1. + 1e-12];
+  for _ in 0..n {
+    zs.push(rng.range(-1., 1.));
+  }
+  zs
+}
+
+pub fn run(args: &[String]) {
+  let seed = arg_u64(args, 0, 1);
+  let n = arg_u64(args, 1, 20) as usize;
+  let max_domains = arg_u64(args, 2, 2000) as usize;
+  let mut rng = Rng::new(seed);
+  let l_ref = 2000e-6 * M;
+
+  // ---- windows with a width parameter: parameter 1, and a few other widths
+  for kind in WIDTH_KINDS {
+    let mut widths = vec![1.0];
+    for _ in 0..3 {
+      widths.push(rng.range(1., 4.));
+    }
+    widths.push(rng.range(0.3, 1.));
+    for a in widths {
+      let ap = mk_width(kind, a);
+      for z in zgrid(&mut rng, n) {
+        let v = ap.integration_constant(z, l_ref);
+        let vm = ap.integration_constant(-z, l_ref);
+        emit(json!({"kind": "win", "ap": apod_json(&ap), "z": fx(z), "L": fx(*(l_ref / M)), "v": fx(v), "vneg": fx(vm)}));
+      }
+    }
+  }
+  // ---- Off and Gaussian
+  for z in zgrid(&mut rng, n) {
+    let ap = Apodization::Off;
+    emit(json!({"kind": "win", "ap": apod_json(&ap), "z": fx(z), "L": fx(*(l_ref / M)),
+      "v": fx(ap.integration_constant(z, l_ref)), "vneg": fx(ap.integration_constant(-z, l_ref))}));
+    emit(json!({"kind": "win_pp_off", "z": fx(z), "v": fx(PeriodicPoling::Off.integration_constant(z, l_ref))}));
+  }
+  for _ in 0..(4 + n / 4) {
+    let l = rng.log_range(200e-6, 30e-3);
+    let fwhm = l * rng.range(0.05, 1.);
+    let ap = Apodization::Gaussian { fwhm: fwhm * M };
+    let mut zs = zgrid(&mut rng, n);
+    zs.push(fwhm / l);
+    for z in zs {
+      let v = ap.integration_constant(z, l * M);
+      let vm = ap.integration_constant(-z, l * M);
+      emit(json!({"kind": "win", "ap": apod_json(&ap), "z": fx(z), "L": fx(l), "v": fx(v), "vneg": fx(vm),
+        "half_point": z == fwhm / l}));
+    }
+  }
+  // ---- out-of-range z is rejected (assert) rather than silently extrapolated
+  for z in [-1.0000001, 1.5, f64::NAN] {
+    let r = guarded(|| Apodization::Welch(1.).integration_constant(z, 1e-3 * M));
+    emit(json!({"kind": "win_out_of_range", "z": fx(z), "panicked": r.is_err()}));
+  }
+  // ---- interpolated profiles
+  for len in 0..=12usize {
+    for rep in 0..(1 + n / 10) {
+      let values: Vec<f64> = (0..len)
+        .map(|i| if rep == 0 { (i as f64 / 4.).min(1.) } else { (rng.range(-1., 1.) * 1024.).round() / 1024. })
+        .collect();
+      let ap = Apodization::Interpolate(values.clone());
+      let mut zs = zgrid(&mut rng, n / 2);
+      if len >= 2 {
+        for k in 0..len {
+          zs.push(2. * k as f64 / (len - 1) as f64 - 1.);
+        }
+      }
+      for z in zs {
+        let v = ap.integration_constant(z, l_ref);
+        emit(json!({"kind": "interp", "values": fxs(&values), "z": fx(z), "v": fx(v)}));
+      }
+    }
+  }
+  // ---- domains
+  let mut cases: Vec<(f64, f64, Apodization)> = vec![
+    (10e-6, 1000e-6, Apodization::Off),
+    (10e-6, 100e-6, Apodization::Interpolate(vec![0., 0., 0., 0., 0., 0., 1., 1., 1., 1., 1., 1.])),
+    (46.5e-6, 46.5e-6, Apodization::Off),
+    (46.5e-6, 20e-6, Apodization::Bartlett(1.)),
+    (7e-6, 49e-6, Apodization::Welch(1.)),
+  ];
+  for _ in 0..n {
+    let nd = (rng.log_range(1., max_domains as f64)).floor();
+    let period = rng.log_range(2e-6, 80e-6);
+    let l = period * (nd - rng.range(0.02, 0.98)).max(0.3);
+    cases.push((period, l, random_apod(&mut rng, false)));
+  }
+  for (period, l, ap) in cases {
+    let signed = if rng.coin() { period } else { -period };
+    let pp = PeriodicPoling::new(signed * M, ap.clone());
+    let nd = pp.num_domains(l * M);
+    let doms = match guarded(|| pp.poling_domains(l * M)) {
+      Ok(d) => d,
+      Err(e) => {
+        emit(json!({"kind": "dom_panic", "period": fx(signed), "L": fx(l), "ap": apod_json(&ap), "msg": e}));
+        continue;
+      }
+    };
+    let lens = pp.poling_domain_lengths(l * M);
+    let mut idx: Vec<usize> = Vec::new();
+    if nd <= 40 {
+      idx.extend(0..nd);
+    } else {
+      idx.extend([0, 1, 2, nd - 3, nd - 2, nd - 1]);
+      let c = nd / 2;
+      idx.extend([c - 2, c - 1, c, c + 1]);
+      for _ in 0..16 {
+        idx.push(rng.below(nd));
+      }
+    }
+    idx.sort();
+    idx.dedup();
+    let entries: Vec<Value> = idx
+      .iter()
+      .filter(|&&i| i < doms.len())
+      .map(|&i| {
+        // the window value at the domain centre, through the public API (the same calls the implementation makes)
+        let zc = spdcalc::math::lerp(-1., 1., (i as f64 + 0.5) / nd as f64);
+        let a = ap.integration_constant(zc, l * M);
+        let (l1, l2) = if i < lens.len() { (*(lens[i].0 / M), *(lens[i].1 / M)) } else { (f64::NAN, f64::NAN) };
+        json!({"i": i, "e": [fx(doms[i].0), fx(doms[i].1)], "zc": fx(zc), "a": fx(a), "len": [fx(l1), fx(l2)]})
+      })
+      .collect();
+    // whole-list aggregates (every entry, also for long lists)
+    let mut all_sum_ok = true;
+    let mut all_range_ok = true;
+    let mut flips = 0usize;
+    let mut prev_first_narrow: Option<bool> = None;
+    for (j, d) in doms.iter().enumerate() {
+      if (d.0 + d.1 - 1.).abs() > 1e-12 {
+        all_sum_ok = false;
+      }
+      if !(d.0 >= 0. && d.0 <= 1. && d.1 >= 0. && d.1 <= 1.) {
+        all_range_ok = false;
+      }
+      if d.0 != d.1 {
+        let first_narrow = d.0 < d.1;
+        if let Some(p) = prev_first_narrow {
+          if p != first_narrow {
+            flips += 1;
+          }
+        }
+        prev_first_narrow = Some(first_narrow);
+        // the narrower fraction must be first up to the centre, second after it
+        let second_half = 2 * j + 1 > doms.len();
+        if first_narrow == second_half {
+          flips += 1000;
+        }
+      }
+    }
+    emit(json!({"kind": "dom", "period": fx(signed), "L": fx(l), "ap": apod_json(&ap), "n": nd, "len_domains": doms.len(),
+      "len_lengths": lens.len(), "entries": entries, "all_sum_ok": all_sum_ok, "all_range_ok": all_range_ok, "flips": flips,
+      "stored_period": fx(match &pp { PeriodicPoling::On { period, .. } => *(*period / M), _ => f64::NAN })}));
+  }
+  emit(json!({"kind": "dom_off", "n": PeriodicPoling::Off.num_domains(1e-3 * M), "len_domains": PeriodicPoling::Off.poling_domains(1e-3 * M).len(),
+    "len_lengths": PeriodicPoling::Off.poling_domain_lengths(1e-3 * M).len()}));
+
+  // ---- update histories
+  for h in 0..(4 * n) {
+    let start_off = h % 5 == 0;
+    let mut pp = if start_off {
+      PeriodicPoling::Off
+    } else {
+      let p = rng.log_range(1e-6, 100e-6) * if rng.coin() { 1. } else { -1. };
+      PeriodicPoling::new(p * M, random_apod(&mut rng, false))
+    };
+    let mut steps: Vec<Value> = Vec::new();
+    let init = observers(&pp);
+    let nops = 1 + rng.below(8);
+    for _ in 0..nops {
+      let op = rng.below(4);
+      let opj;
+      match op {
+        0 => {
+          let p = rng.log_range(1e-6, 100e-6) * if rng.coin() { 1. } else { -1. };
+          pp = pp.with_period(p * M);
+          opj = json!({"op": "with_period", "p": fx(p)});
+        }
+        1 => {
+          let p = rng.log_range(1e-6, 100e-6) * if rng.coin() { 1. } else { -1. };
+          pp.assign_period(p * M);
+          opj = json!({"op": "assign_period", "p": fx(p)});
+        }
+        2 => {
+          let a = random_apod(&mut rng, false);
+          pp.set_apodization(a.clone());
+          opj = json!({"op": "set_apodization", "ap": apod_json(&a)});
+        }
+        _ => {
+          let a = random_apod(&mut rng, false);
+          pp = pp.with_apodization(a.clone());
+          opj = json!({"op": "with_apodization", "ap": apod_json(&a)});
+        }
+      }
+      steps.push(json!({"op": opj, "after": observers(&pp)}));
+    }
+    emit(json!({"kind": "upd", "init": init, "steps": steps}));
+  }
+
+  // ---- config <-> runtime mapping
+  for _ in 0..(2 * n) {
+    let ap = random_apod(&mut rng, false);
+    let cfg: ApodizationConfig = ap.clone().into();
+    let back: Apodization = cfg.clone().into();
+    let js = serde_json::to_value(&ap).unwrap_or(Value::Null);
+    let from_js: Result<Apodization, _> = serde_json::from_value(js.clone());
+    let same_window = {
+      let z = rng.range(-1., 1.);
+      ap.integration_constant(z, l_ref) == back.integration_constant(z, l_ref)
+    };
+    let rel = match (&ap, &back) {
+      (Apodization::Gaussian { fwhm: f1 }, Apodization::Gaussian { fwhm: f2 }) => ((*(*f1 / M) - *(*f2 / M)) / *(*f1 / M)).abs(),
+      (a, b) => if a == b { 0. } else { 1. },
+    };
+    emit(json!({"kind": "cfg", "ap": apod_json(&ap), "cfg_kind": js.get("kind").cloned().unwrap_or(Value::Null),
+      "kind_str": ap.kind(), "back_kind": back.kind(), "rel_err": fx(rel), "same_window": same_window,
+      "json_roundtrip_kind": from_js.map(|a| a.kind().to_string()).unwrap_or("Err".to_string())}));
+  }
+  for (spell, expect) in [("off", "Off"), ("none", "Off"), ("None", "Off"), ("Off", "Off"), ("bartlett", "Bartlett"), ("Bartlett", "Bartlett"),
+    ("blackman", "Blackman"), ("connes", "Connes"), ("cosine", "Cosine"), ("hamming", "Hamming"), ("welch", "Welch"), ("Welch", "Welch"),
+    ("gaussian", "Gaussian"), ("interpolate", "Interpolate"), ("BARTLETT", "Err"), ("hann", "Err")] {
+    let js = match expect {
+      "Off" => json!({"kind": spell}),
+      "Gaussian" => json!({"kind": spell, "parameter": {"fwhm_um": 500.0}}),
+      "Interpolate" => json!({"kind": spell, "parameter": [0.0, 1.0]}),
+      _ => json!({"kind": spell, "parameter": 1.0}),
+    };
+    let r: Result<Apodization, _> = serde_json::from_value(js);
+    emit(json!({"kind": "cfg_spelling", "spelling": spell, "expect": expect, "got": r.map(|a| a.kind().to_string()).unwrap_or("Err".to_string())}));
+  }
 }
